@@ -3,6 +3,10 @@ package rcproxy
 import (
 	"context"
 	"fmt"
+	"github.com/go-kit/log"
+	"github.com/prometheus/client_golang/prometheus"
+	"github.com/prometheus/prometheus/tsdb/chunkenc"
+	"github.com/thanos-io/thanos/pkg/query"
 	"sort"
 	"strings"
 	"time"
@@ -344,4 +348,99 @@ func runC06(x *simkit.Exec) {
 			}
 		}
 	}
+	// The same through the querier, which turns its partial-response flag into the strategy sent to the
+	// proxy and hands warnings on as annotations: with partial response off a failing store fails the
+	// query, with it on the query succeeds and carries a warning.
+	for _, i := range queried {
+		for _, f := range modes(i, true) {
+			if f.Mode == "stall" {
+				continue
+			}
+			for _, partial := range []bool{false, true} {
+				if !sc.viaQuerier(x, map[int]faultPlan{i: f}, partial) {
+					return
+				}
+			}
+		}
+	}
+}
+
+// viaQuerier runs the scenario's request through query.NewQueryableCreator(...).Querier().Select() with one
+// failing store and judges the outcome against the querier's partial-response flag. Returns false after a
+// violation or trouble.
+func (sc *c06Scenario) viaQuerier(x *simkit.Exec, faults map[int]faultPlan, partial bool) bool {
+	var selErr error
+	var warns []string
+	finished, reached := false, false
+	salt := fmt.Sprintf("q:%v:%s", partial, describeFaults(sc.ds, faults))
+	x.Bubble(salt, func(s *simkit.Sim) {
+		cl := newCluster(s, sc.ds, sc.pc)
+		for i, f := range faults {
+			cl.clients[i].setFault(f)
+		}
+		s.MaxSteps = 5000
+		creator := query.NewQueryableCreator(log.NewNopLogger(), prometheus.NewRegistry(), cl.proxy, 4, time.Minute, "", int(sc.batch))
+		var strip []string
+		if sc.strip {
+			strip = sc.ds.ReplicaLabels
+		}
+		qb := creator(sc.strip, strip, nil, 0, partial, false, nil, query.NoopSeriesStatsReporter)
+		ctx, cancel := context.WithCancel(context.Background())
+		defer cancel()
+		s.Go("client", func() {
+			n := cl.beginRequest()
+			q, err := qb.Querier(sc.mint, sc.maxt)
+			if err != nil {
+				selErr = err
+				return
+			}
+			defer q.Close()
+			ss := q.Select(ctx, true, nil, labels.MustNewMatcher(labels.MatchRegexp, "__name__", "m.*"))
+			var it chunkenc.Iterator
+			for ss.Next() {
+				it = ss.At().Iterator(it)
+				for it.Next() != chunkenc.ValNone {
+				}
+			}
+			selErr = ss.Err()
+			for _, w := range ss.Warnings() {
+				warns = append(warns, w.Error())
+			}
+			for i := range faults {
+				for _, rec := range cl.clients[i].callsOf(n, "series") {
+					reached = reached || rec.Faulted
+				}
+			}
+			finished = true
+		})
+		s.Loop()
+		if s.Stuck() {
+			x.Troublef("c06 querier: scheduler stuck, parked=%v", s.ParkedIDs())
+			finished = false
+		}
+	})
+	if !finished || x.Failed() || len(x.Trouble) > 0 {
+		return false
+	}
+	if !reached {
+		return true
+	}
+	retr := "eager"
+	if sc.pc.Lazy {
+		retr = "lazy"
+	}
+	head := fmt.Sprintf("through the querier (partial response %v, proxy %s, batch %d), faults: %s\nstores: %v", partial, sc.pc, sc.batch, describeFaults(sc.ds, faults), sc.ds.describe()["stores"])
+	x.Probe("c06.querier_checked")
+	switch {
+	case !partial && selErr == nil:
+		x.Violate("abort-fails", retr+":querier:query-succeeded", "%s\npartial response is off and a store failed, but Select reported no error (warnings %q)", head, warns)
+		return false
+	case partial && selErr != nil:
+		x.Violate("warn-succeeds", retr+":querier:query-failed", "%s\npartial response is on, yet the failure of one store failed the query: %v", head, selErr)
+		return false
+	case partial && len(warns) == 0:
+		x.Violate("warn-reports-failed-store", retr+":querier:no-warning", "%s\npartial response is on, a store failed, and the query carries no warning", head)
+		return false
+	}
+	return true
 }
